@@ -164,6 +164,16 @@ def flow_scenarios(ctx):
     for ch in chains:
         scs.append({"name": "rollover-chain-" + "-".join(ch), "steps": [{"key_type": k} for k in ch],
                     "nonce_on_get": True, "rules": []})
+    # key type and contacts edited together, the CA accepts the roll-over and REFUSES the contact update
+    # (invalidContact); after the restart with corrected contacts nothing may be signed with the key the CA
+    # no longer holds (what the account file says must be what the CA was told)
+    for a, b in (("ecdsa_p256", "ecdsa_p384"), ("rsa2048", "ed25519")):
+        scs.append({"name": "rollover-contact-refused-%s-%s" % (a, b),
+                    "steps": [{"key_type": a}, {"key_type": b, "contacts": ["not-valid@example.org"]},
+                              {"key_type": b, "contacts": ["a@example.org"]}, {"key_type": b, "contacts": ["d@example.org"]}],
+                    "nonce_on_get": True,
+                    "rules": [{"kind": "account", "nth": 0, "answer": {"status": 400, "ctype": "application/problem+json",
+                               "body": {"type": mockca.ERR + "invalidContact", "detail": "injected"}}}]})
     scs.append({"name": "contacts", "steps": [{"key_type": "ecdsa_p256"}, {"key_type": "ecdsa_p256", "contacts": ["c@example.org"]}],
                 "nonce_on_get": False, "rules": []})
     # a request that is delivered (its nonce is consumed) but never answered, then the next attempt:
